@@ -242,3 +242,104 @@ Section Steps.
     exact (wp_drain_wf _ w [] r Hr Hw (Forall_nil _) D).
   Qed.
 End Steps.
+
+(* ---- what the guard changes: nothing but the panics.  Wherever the decoders that call the dependency's
+   UnmarshalBytes directly (g = false) answer with a value or an error, the decoders that go through the
+   guarded one (g = true) give the same answer. ---- *)
+Section Conservative.
+  Lemma bind_same {A B} (o : outcome B) (k1 k2 : B -> outcome A) :
+    bind o k2 <> Panic -> (forall x, k2 x <> Panic -> k1 x = k2 x) -> bind o k1 = bind o k2.
+  Proof. destruct o; cbn [bind]; intros NP H; try reflexivity. apply H. exact NP. Qed.
+
+  Lemma bind_ub_cons {A} b (k1 k2 : Z * bytes -> outcome A) :
+    bind (unmarshal_bytes_g false b) k2 <> Panic -> (forall x, k2 x <> Panic -> k1 x = k2 x) ->
+    bind (unmarshal_bytes_g true b) k1 = bind (unmarshal_bytes_g false b) k2.
+  Proof.
+    intros NP H.
+    assert (E : unmarshal_bytes_g true b = unmarshal_bytes_g false b).
+    { apply ub_guard_conservative. intros P. unfold unmarshal_bytes in P. rewrite P in NP. apply NP. reflexivity. }
+    rewrite E. apply bind_same; assumption.
+  Qed.
+
+  Lemma api_le_conservative buf : unmarshal_api_le false buf <> Panic -> unmarshal_api_le true buf = unmarshal_api_le false buf.
+  Proof.
+    unfold unmarshal_api_le. intros NP.
+    apply bind_same; [exact NP|]. intros [n v] NP1.
+    apply bind_same; [exact NP1|]. intros b1 NP2.
+    apply bind_ub_cons; [exact NP2|]. intros [n1 msg] NP3.
+    apply bind_same; [exact NP3|]. intros b2 NP4.
+    apply bind_ub_cons; [exact NP4|]. intros [n2 tags] NP5.
+    apply bind_same; [exact NP5|]. intros b3 NP6.
+    apply bind_ub_cons; [exact NP6|]. intros [n3 flds] _. reflexivity.
+  Qed.
+
+  Lemma qr_conservative buf : unmarshal_qr false buf <> Panic -> unmarshal_qr true buf = unmarshal_qr false buf.
+  Proof.
+    unfold unmarshal_qr. intros NP.
+    apply bind_same; [exact NP|]. intros [n v] NP1.
+    apply bind_same; [exact NP1|]. intros b1 NP2.
+    apply bind_ub_cons; [exact NP2|]. intros [n1 qry] NP3.
+    apply bind_same; [exact NP3|]. intros b2 NP4.
+    apply bind_ub_cons; [exact NP4|]. intros [n2 pos] _. reflexivity.
+  Qed.
+
+  Lemma le_unmarshal_conservative prev buf :
+    le_unmarshal false prev buf <> Panic -> le_unmarshal true prev buf = le_unmarshal false prev buf.
+  Proof.
+    unfold le_unmarshal. intros NP.
+    apply bind_same; [exact NP|]. intros [nn hdr] NP1.
+    apply bind_same; [exact NP1|]. intros b1 NP2.
+    apply bind_same; [exact NP2|]. intros [n ts] NP3.
+    apply bind_same; [exact NP3|]. intros b2 NP4.
+    apply bind_ub_cons; [exact NP4|]. intros [n2 msg] NP5.
+    destruct (N.odd hdr); [|reflexivity].
+    apply bind_same; [exact NP5|]. intros b3 NP6.
+    apply bind_ub_cons; [exact NP6|]. intros [n3 flds] _. reflexivity.
+  Qed.
+
+  Variable fx : bool.
+  Variable unquote : bytes -> option bytes.
+
+  Lemma wp_init_conservative buf :
+    wp_init false fx unquote buf <> Panic -> wp_init true fx unquote buf = wp_init false fx unquote buf.
+  Proof.
+    unfold wp_init. intros NP.
+    apply bind_ub_cons; [exact NP|]. intros [idx tags] NP1.
+    apply bind_same; [exact NP1|]. intros b1 NP2.
+    apply bind_ub_cons; [exact NP2|]. intros [n flds] _. reflexivity.
+  Qed.
+
+  Lemma wp_get_conservative w :
+    snd (wp_get false fx unquote w) <> Panic -> wp_get true fx unquote w = wp_get false fx unquote w.
+  Proof.
+    unfold wp_get. destruct (wp_read w); [reflexivity|]. destruct (wp_recs w <=? wp_cur w); [reflexivity|].
+    destruct (slice_from (wp_buf w) (wp_pos w)) as [b| | |]; try reflexivity.
+    intros NP.
+    assert (E : unmarshal_api_le true b = unmarshal_api_le false b).
+    { apply api_le_conservative. intros P. rewrite P in NP. apply NP. reflexivity. }
+    rewrite E. reflexivity.
+  Qed.
+
+  Lemma wp_drain_conservative : forall fuel w acc,
+    wp_drain false fx unquote fuel w acc <> Panic ->
+    wp_drain true fx unquote fuel w acc = wp_drain false fx unquote fuel w acc.
+  Proof.
+    induction fuel as [|f IH]; intros w acc; [reflexivity|]. cbn [wp_drain]. intros NP.
+    assert (E : wp_get true fx unquote w = wp_get false fx unquote w).
+    { apply wp_get_conservative. intros P. destruct (wp_get false fx unquote w) as [w' o]. cbn [snd] in P. rewrite P in NP.
+      apply NP. reflexivity. }
+    rewrite E. destruct (wp_get false fx unquote w) as [w' [le| | |]]; try reflexivity. apply IH. exact NP.
+  Qed.
+
+  Lemma wp_run_conservative buf :
+    wp_run false fx unquote buf <> Panic -> wp_run true fx unquote buf = wp_run false fx unquote buf.
+  Proof.
+    unfold wp_run. intros NP.
+    assert (E : wp_init true fx unquote buf = wp_init false fx unquote buf).
+    { apply wp_init_conservative. intros P. rewrite P in NP. apply NP. reflexivity. }
+    rewrite E. destruct (wp_init false fx unquote buf) as [w| | |]; cbn [bind] in *; try reflexivity.
+    assert (D : wp_drain true fx unquote (S (length buf)) w [] = wp_drain false fx unquote (S (length buf)) w []).
+    { apply wp_drain_conservative. intros P. rewrite P in NP. apply NP. reflexivity. }
+    rewrite D. reflexivity.
+  Qed.
+End Conservative.
